@@ -142,6 +142,17 @@ PROPS = {
         "stub": "none (no scheduler or clock involved: model-conformance half of the technique)",
         "assumptions": [],
     },
+    "C07": {
+        "level": "exploration",
+        "profiles": [{"name": "wire-sim", "weight": 1}],
+        "rule": "each case is one generated snapshot content (0-4 DBIs with names up to 511 bytes, arbitrary flags/transforms, 0-1200 entries with key and value sizes on both sides "
+                "of the 1/2/3/4-byte length-varint boundaries, empty values, timestamps 0..2^64-1, arbitrary entry flags, metadata strings up to 1200 bytes) sent real writer -> reference "
+                "reader, real writer -> real reader, and foreign writer (independent encoder, permuted field order, unknown fields of wire types 0/1/2/5 at snapshot, meta, DBI and entry "
+                "level) -> real reader, compared with what the generated reference codec reads; non-trivial = the content has entries; distinct = distinct SHA-256 of the event log",
+        "real": "snapshot.Snapshot/DBI/KV/Meta encoders and decoders, DumpData/LoadData (gzip)",
+        "stub": "peers speaking the published schema: the generated gogo codec and an independent protobuf writer; no scheduler or clock involved",
+        "assumptions": ["the input universe is sampled by a seeded generator through the simulated transport, not by a dedicated codec fuzzer (lower density over byte-level encodings)"],
+    },
 }
 
 ALL_PROFILES = sorted({p["name"] for c in PROPS.values() for p in c["profiles"]})
@@ -206,4 +217,8 @@ MANIFEST_TEXT = {
                     "iterator's decisions applied in the DBI's own key order; failed operations leave no trace; valid input is never rejected.",
             "note": "No scheduler or clock is involved; this is the model-conformance half of the technique (seeded sequences, reference model, shrinking, replay).",
             "technique": "seeded operation/fault sequences against a reference model (simulation without scheduler)"},
+    "C07": {"text": "Version skew on the wire: generated contents travel real->standard, real->real and foreign (every legal re-encoding: field order, unknown fields of every wire "
+                    "type at every level) ->real, always compared with the generated reference codec; sizes cross all length-varint boundaries.",
+            "note": "The codec is a pure function; the simulation adds seeded generation, shrinking and replay, not schedule exploration. Density over byte-level encodings is lower than a dedicated fuzzer's.",
+            "technique": "seeded transport simulation between real codec, generated reference codec and an independent re-encoder (no scheduler)"},
 }
